@@ -26,7 +26,10 @@ def c01(c):
     plan, n = gen_plan("DecodePlan.tla", "cfg/DecodePlan.cfg", "dec")
     c.notes.append("DecodePlan: %d strings enumerated by TLC (near misses of 6 base encodings, absolute edge values, the first valid "
                    "encodings below/above the modulus and every limb boundary) round-tripped in both directions" % n)
+    ell, dec, st = gen_isqrt_inputs(scale(c.tier, 16, 1))
+    c.notes.append("decoder inputs constructed so that the inner square-root-of-ratio call sees the table-digit classes of SqrtPlan: %s" % st)
     for b in ("ark", "min"):
+        c.trace(b, "rtfile", 0, dec)
         c.trace(b, "rtfile", 0, plan)
         c.trace(b, "prog", scale(c.tier, 60, 1200), 40)
         c.trace(b, "rt2rand", scale(c.tier, 1500, 30000))
@@ -79,8 +82,11 @@ def c02(c):
     c.mc(toy_cfgs(["bytes", "field"], c.tier))
     plan, n = gen_plan("DecodePlan.tla", "cfg/DecodePlan.cfg", "dec")
     c.exhaustive_parts.append("for 6 base encodings: every alias s+jq < 2^256, q-s, s+-1, all 256 single-bit flips, bits 253..255; 10 absolute edge values; through every entry point for the first 300")
+    ell, dec, st = gen_isqrt_inputs(scale(c.tier, 16, 1))
+    c.notes.append("decoder inputs constructed so that the inner square-root-of-ratio call sees the table-digit classes of SqrtPlan: %s" % st)
     for b in ("ark", "min"):
         replay_decode_plan(c, b, plan)
+        c.trace(b, "decfile", 0, dec)
     for b in ("ark", "min"):
         c.trace(b, "decnear", scale(c.tier, 6, 120))
         c.trace(b, "decrand", scale(c.tier, 2000, 40000))
@@ -93,6 +99,8 @@ def c03(c):
     for b in ("ark", "min"):
         c.trace(b, "obs", scale(c.tier, 2, 30))
         c.trace(b, "prog", scale(c.tier, 60, 1200), 40)
+        # affine round trips and batch normalisation must hand back the same element (its encoding is unchanged)
+        c.trace(b, "ctor", scale(c.tier, 50, 500), kinds=["conv"])
     return c.finish()
 
 
@@ -101,6 +109,7 @@ def c04(c):
     c.mc(toy_cfgs(["pair", "point"], c.tier) + session_cfgs(c.tier))
     for b in ("ark", "min"):
         c.trace(b, "forms", 1)
+        c.trace(b, "coset", scale(c.tier, 40, 800))
         c.trace(b, "prog", scale(c.tier, 80, 2000), 40)
     return c.finish()
 
@@ -119,7 +128,12 @@ def c05(c):
 def c07(c):
     build_both()
     c.mc(toy_cfgs(["field"], c.tier))
+    ell, dec, st = gen_isqrt_inputs(scale(c.tier, 16, 1))
+    c.notes.append("Elligator inputs constructed so that the inner square-root-of-ratio call sees every table-digit class of "
+                   "SqrtPlan (boundary dlogs, roots of unity of every order, single bits, zeta^k, every %s digit value): %s"
+                   % ("16th" if c.tier != "thorough" else "", st))
     for b in ("ark", "min"):
+        c.trace(b, "ellfile", 0, ell)
         c.trace(b, "ell", scale(c.tier, 1500, 40000))
     return c.finish()
 
@@ -145,6 +159,12 @@ def field_cfgs(mode):
 def c10(c):
     build_both()
     c.mc(field_cfgs("arith"))
+    plan, n = gen_plan("FieldPlan.tla", "cfg/FieldPlan.cfg", "field")
+    c.notes.append("FieldPlan: %d operand pairs generated by TLC by the Montgomery residue of their result (every limb x 7 special "
+                   "limb values x 3 fills of the lower limbs x {32,64}-bit limbs x 3 fields x mul/add/sub/div)" % n)
+    c.exhaustive_parts.append("result residues with each 32- and 64-bit limb equal to 0, 1, 2^w-1, 2^w-p_i, 2^w-p_i-1, p_i, p_i-1")
+    for b in ("ark", "min"):
+        c.trace(b, "fieldfile", 0, plan, **FT)
     for b in ("ark", "min"):
         for f in ("Fq", "Fr", "Fp"):
             c.trace(b, "farith_" + f, scale(c.tier, 3000, 120000), **FT)
